@@ -362,6 +362,8 @@ class OpsMixin:
             return lv
 
     def is_none(self, v: Val):
+        if v.meta and isinstance(v.meta, dict) and "match" in v.meta and v.ty.kind == "bool":
+            return z3.Not(v.t)         # result of pattern.match/search/fullmatch: None exactly when there is no match
         if v.ty.kind == "none":
             return z3.BoolVal(True)
         if v.is_py:
